@@ -26,6 +26,7 @@ type C06StallParams struct {
 	WorkMs    int       `json:"work_ms"`    // the handler works this long (fake clock) before it returns
 	StallMs   int       `json:"stall_ms"`   // how long the peer accepts nothing
 	Fail      bool      `json:"fail"`       // the handler returns an error status
+	Busy      bool      `json:"busy,omitempty"` // the connection's writer is already stuck with the reply of a unary call when the stream's handler first sends
 }
 
 func genC06Stall(g *rand.Rand, tier string) any {
@@ -37,6 +38,7 @@ func genC06Stall(g *rand.Rand, tier string) any {
 	p.WorkMs = []int{0, 0, 50, 300}[g.IntN(4)]
 	p.StallMs = []int{10, 200, 200, 1000}[g.IntN(4)]
 	p.Fail = g.IntN(4) == 0
+	p.Busy = g.IntN(3) == 0
 	return p
 }
 
@@ -52,6 +54,10 @@ func execC06Stall(e *Env, pp any) {
 		cs.CSendN = 1
 		cs.HProg = append(cs.HProg, Op{K: 'r'})
 	}
+	// the handler sets response headers first; they leave with whatever the first
+	// response envelope turns out to be (C04)
+	hdrMD := map[string][]string{"x-stall": {"a", "b"}, "x-stall-bin": {"\x00\xff"}}
+	cs.HProg = append(cs.HProg, Op{K: 'H', MD: hdrMD})
 	if p.M > 0 {
 		cs.HProg = append(cs.HProg, Op{K: 's', N: p.M})
 	}
@@ -95,6 +101,12 @@ func execC06Stall(e *Env, pp any) {
 			Headers: []*goatorepo.KeyValue{{Key: CallKey, Value: "7"}}}
 		if p.TimeoutMs > 0 {
 			h.Headers = append(h.Headers, &goatorepo.KeyValue{Key: "grpc-timeout", Value: fmt.Sprintf("%dm", p.TimeoutMs)})
+		}
+		if p.Busy {
+			// answered at once; its reply occupies the connection's writer for as long as the peer reads nothing
+			hu := &goatorepo.RequestHeader{Method: methodNames[KUnary], Source: "raw", Destination: ServerID}
+			a.Write(rctx, &Rpc{Id: 2, Header: hu, Body: bytesBody([]byte("busy"))})
+			e.Pt("raw.send")
 		}
 		a.Write(rctx, &Rpc{Id: 1, Header: h})
 		h2 := &goatorepo.RequestHeader{Method: methodNames[kind], Source: "raw", Destination: ServerID}
@@ -162,6 +174,22 @@ func execC06Stall(e *Env, pp any) {
 			}
 		}
 	}
+	// C04: the headers the handler set arrive with the first response envelope of the
+	// stream, whether that is a message or - when every send failed - the final status
+	for _, m := range resp {
+		if m.GetId() != 1 || m.GetReset_() != nil {
+			continue
+		}
+		gh, err := toMD(m.GetHeader().GetHeaders())
+		if err != nil {
+			e.Violate("C04", "response-header", "server.failed-send", "undecodable response header: %v", err)
+		} else if d := mdEqual(mdOf(hdrMD), gh); d != "" {
+			e.Violate("C04", "response-header-lost", "server.failed-send", "the handler set response headers and sent %d messages (the sends blocked behind the stalled writer, timeout %d ms); the first response envelope the peer received (%s) does not carry them: %s", p.M, p.TimeoutMs, shape(m), d)
+		} else {
+			e.Note("stall.headers-with-first-envelope." + shape(m))
+		}
+		break
+	}
 	if trailers == 0 {
 		e.Violate(prop, "missing-trailer", "server.deadline-under-backpressure", "the handler returned (%d messages sent, timeout %d ms, peer stalled %d ms), the peer never reset the stream and the connection is alive, but no trailer was ever emitted for it (%d envelopes received)", p.M, p.TimeoutMs, p.StallMs, len(resp))
 	} else if trailers > 1 || afterTrailer > 0 {
@@ -170,6 +198,6 @@ func execC06Stall(e *Env, pp any) {
 }
 
 func init() {
-	Register(&Family{Name: "c06.stall", ShrinkKeys: []string{"m"}, Props: []string{"C06"}, New: func() any { return &C06StallParams{} }, Gen: genC06Stall, Exec: execC06Stall,
+	Register(&Family{Name: "c06.stall", ShrinkKeys: []string{"m"}, Props: []string{"C06", "C04"}, New: func() any { return &C06StallParams{} }, Gen: genC06Stall, Exec: execC06Stall,
 		Faulty: true, FaultKinds: []string{"link.stall", "ctx.deadline"}})
 }
